@@ -154,8 +154,8 @@ func transitionWordBreakState(state int, r rune, b []byte, str string) (newState
 		if state == wbNewline || state == wbCR || state == wbLF {
 			return wbAny | wbZWJBit, true // Make sure we don't apply WB4 to WB3a.
 		}
-		if state < 0 {
-			return wbAny | wbZWJBit, false
+		if state < 0 || state == wbWSegSpace {
+			return wbAny | wbZWJBit, false // WB3d requires the spaces to be adjacent.
 		}
 		return state | wbZWJBit, false
 	} else if nextProperty == prExtend || nextProperty == prFormat {
